@@ -23,6 +23,24 @@ fn out_dir() -> PathBuf {
     std::env::var("VERIF_OUT").map(PathBuf::from).unwrap_or_else(|_| root_dir())
 }
 
+/// Remove a scratch directory of a run. Workers that were killed (after a violation, or on a timeout)
+/// may have left files with the immutable flag behind (C15's write-fault injection): clear it first.
+fn remove_scratch(dir: &Path) {
+    if !dir.exists() {
+        return;
+    }
+    if std::fs::remove_dir_all(dir).is_err() {
+        let _ = std::process::Command::new("chattr")
+            .arg("-R")
+            .arg("-i")
+            .arg(dir)
+            .stdout(std::process::Stdio::null())
+            .stderr(std::process::Stdio::null())
+            .status();
+        let _ = std::fs::remove_dir_all(dir);
+    }
+}
+
 fn root_dir() -> PathBuf {
     if let Ok(r) = std::env::var("VERIF_ROOT") {
         return PathBuf::from(r);
@@ -194,7 +212,7 @@ fn replay_file(path: &Path, quiet: bool) -> i32 {
     let scratch = ctx.root.join(format!("harness/target/scratch/replay-{}", std::process::id()));
     let env = ctx.env(Tier::Quick, 0, true, scratch.clone());
     let r = dispatch(&id, ReplayV { env: &env, case: &v["case"] });
-    let _ = std::fs::remove_dir_all(&scratch);
+    remove_scratch(&scratch);
     match r {
         None => {
             eprintln!("unknown property {id}");
@@ -291,7 +309,7 @@ fn run(id: &str, tier: Tier) -> i32 {
 
     // 2. exploration
     let outdir = ctx.root.join(format!("harness/target/scratch/{id}-{}-{}", tier.name(), std::process::id()));
-    let _ = std::fs::remove_dir_all(&outdir);
+    remove_scratch(&outdir);
     let timeout_s = match tier {
         Tier::Quick => 1500,
         Tier::Thorough => 6 * 3600,
@@ -314,6 +332,31 @@ fn run(id: &str, tier: Tier) -> i32 {
                     out.violation = Some(v);
                 }
                 continue;
+            }
+        }
+        if id == "C02" && status != "timeout" {
+            // the Typst compiler / renderer itself may abort (failed allocation, stack overflow) on an
+            // extreme document: if it also dies on the ORIGINAL text alone, in a fresh process, the loss
+            // of this worker has nothing to do with typstyle -- counted, not inconclusive
+            if let Some(src) = infl.as_ref().and_then(|v| v["src"].as_str()) {
+                let probe = std::process::Command::new(&exe)
+                    .arg("renderprobe")
+                    .stdin(std::process::Stdio::piped())
+                    .stdout(std::process::Stdio::null())
+                    .stderr(std::process::Stdio::null())
+                    .spawn()
+                    .and_then(|mut ch| {
+                        use std::io::Write;
+                        if let Some(mut si) = ch.stdin.take() {
+                            let _ = si.write_all(src.as_bytes());
+                        }
+                        ch.wait()
+                    });
+                if probe.is_ok_and(|st| !st.success()) {
+                    eprintln!("worker {w} was lost to an abort of the Typst compiler itself on an input (not typstyle's): {}", syn::clip(src, 200));
+                    out.stats.skip("worker-lost:typst-itself-aborts-on-the-input");
+                    continue;
+                }
             }
         }
         eprintln!("worker {w} did not finish ({status}); in-flight case: {}", infl.as_ref().map(|v| syn::clip(&v.to_string(), 300)).unwrap_or_default());
@@ -448,7 +491,7 @@ fn run(id: &str, tier: Tier) -> i32 {
         regress_replayed,
         fuzz_extra,
     );
-    let _ = std::fs::remove_dir_all(&outdir);
+    remove_scratch(&outdir);
 
     println!(
         "{id} {}: evaluations={} (swept {}, generated {}, rejected {}) distinct_nontrivial={} skipped={:?} wall={:.1}s",
@@ -563,6 +606,12 @@ fn real_main(args: Vec<String>) -> i32 {
         Some("tree") => {
             let src = read_stdin();
             println!("{:#?}", syn::parse(&src));
+            0
+        }
+        Some("renderprobe") => {
+            // compile + render the text on stdin, nothing else (C02: does Typst itself survive this input?)
+            let src = read_stdin();
+            let _ = vrender::render(&src, 1.0);
             0
         }
         Some("nest") => {
